@@ -384,16 +384,21 @@ static Outcome runCli(const Case& c, const Cfg& g, const std::string& outPath, c
     if (g.ss != "PI") a.push_back(xslPath);
     std::vector<char*> argv; for (auto& s : a) argv.push_back(const_cast<char*>(s.c_str())); argv.push_back(nullptr);
     fflush(stdout);
-    pid_t pid = fork();
-    if (pid == 0) {
-        int in = open(g.src == "stream" ? xmlPath.c_str() : "/dev/null", O_RDONLY);
-        int out = open(stdoutPath.c_str(), O_WRONLY | O_CREAT | O_TRUNC, 0644);
-        int err = open(stderrPath.c_str(), O_WRONLY | O_CREAT | O_TRUNC, 0644);
-        dup2(in, 0); dup2(out, 1); dup2(err, 2);
-        execv(exe.c_str(), argv.data());
-        _exit(127);
+    int ws = 0;
+    for (int attempt = 0; attempt < 5; ++attempt) {          // 127 = exec / dynamic loader failure: retry, then give up as an infrastructure error
+        pid_t pid = fork();
+        if (pid == 0) {
+            int in = open(g.src == "stream" ? xmlPath.c_str() : "/dev/null", O_RDONLY);
+            int out = open(stdoutPath.c_str(), O_WRONLY | O_CREAT | O_TRUNC, 0644);
+            int err = open(stderrPath.c_str(), O_WRONLY | O_CREAT | O_TRUNC, 0644);
+            dup2(in, 0); dup2(out, 1); dup2(err, 2);
+            execv(exe.c_str(), argv.data());
+            _exit(127);
+        }
+        ws = 0; waitpid(pid, &ws, 0);
+        if (!(WIFEXITED(ws) && WEXITSTATUS(ws) == 127)) break;
+        usleep(300000);
     }
-    int ws = 0; waitpid(pid, &ws, 0);
     if (WIFEXITED(ws)) r.status = WEXITSTATUS(ws); else r.status = -1000 - WTERMSIG(ws);
     r.msg = readFile(stderrPath);
     if (r.status == 127) { fprintf(stderr, "cannot exec %s\n", exe.c_str()); exit(2); }
